@@ -2,7 +2,7 @@
 import kcp_common as K
 
 META = {
-    "enabled": False,
+    "enabled": True,
     "engine": "kcp",
     "technique": "Coq inductive invariant over all call sequences with arbitrary (forged) inputs + extraction-based differential replay + window monitors",
     "level_text": "Machine-checked invariant of the transcribed ARQ core: from the initial state every sequence of Send/Recv/Input(any bytes)/flush/Update/Check/SetMtu/NoDelay of any length keeps |rcv_queue| <= rcv_wnd, |rcv_buf| <= rcv_wnd (distinct numbers inside one window), snd_buf = the contiguous range [snd_una, snd_nxt) of at most snd_wnd segments, never faults, and every emitted segment advertises exactly the free space of the delivery queue; admission is proved against min(snd_wnd, rmt_wnd[, cwnd]). The model is tied to kcp.go by replaying op logs of two real cores under a fake clock (every return value, every datagram byte for byte, full state projection after every call), with faults, reordering and a forging peer.",
